@@ -10,6 +10,7 @@ import (
 
 	"golang.org/x/tools/go/packages"
 	"golang.org/x/tools/go/ssa"
+	"golang.org/x/tools/go/types/typeutil"
 
 	"verifsa/core"
 	"verifsa/eng"
@@ -297,40 +298,27 @@ func polarity(p *core.Program, r *core.Report, rule string, pkg *packages.Packag
 	})
 }
 
-// layoutIndexTable extracts the return constant per layout case of MIndex / ZIndex.
+// layoutIndexTable evaluates MIndex / ZIndex for each named layout (CONSTEVAL over the method with the receiver
+// fixed to the layout constant, module helpers and package tables folded), and for an unnamed layout (default).
 func layoutIndexTable(p *core.Program, method string) (map[string]int64, int64, bool) {
-	fd, pkg := p.DeclOf("", "Layout."+method)
-	if fd == nil {
+	fn := p.SSAFunc("", "(Layout)."+method)
+	if fn == nil || len(fn.Params) != 1 {
 		return nil, 0, false
 	}
 	ln := layoutNames(p)
 	out := map[string]int64{}
-	var def int64 = -99
-	for _, sw := range eng.Switches(pkg, fd.Body) {
-		for _, c := range sw.Clauses {
-			if len(c.Returns) != 1 || len(c.Returns[0].Results) != 1 {
-				continue
-			}
-			v, ok := eng.ConstInt64(eng.ConstOf(pkg.TypesInfo, c.Returns[0].Results[0]))
-			if !ok {
-				continue
-			}
-			for _, k := range c.Keys {
-				if k.Default {
-					def = v
-					continue
-				}
-				kv, _ := eng.ConstInt64(k.Const)
-				out[ln[kv]] = v
-			}
+	eval := func(a int64) int64 {
+		ev := &eng.ConstEval{Inline: pureTableHelper}
+		top := ev.Run(fn, []eng.CVal{eng.IntV(a)})
+		if k, ok := top.Ret.Int(); ok {
+			return k
 		}
+		return -99
 	}
-	for _, n := range []string{"NoLayout", "XY", "XYZ", "XYM", "XYZM"} {
-		if _, ok := out[n]; !ok {
-			out[n] = def
-		}
+	for v, n := range ln {
+		out[n] = eval(v)
 	}
-	return out, def, true
+	return out, eval(7), true
 }
 
 func zmTable(p *core.Program, r *core.Report, rule string) {
@@ -352,7 +340,7 @@ func zmTable(p *core.Program, r *core.Report, rule string) {
 		if pk.PkgPath != mod || d.Body == nil || sig == nil || sig.Recv() == nil || !strings.Contains(sig.Recv().Type().String(), "Bounds") {
 			return
 		}
-		prs, st := zmPairs(pk, d)
+		prs, st := zmPairs(p, pk, d)
 		if len(prs) > 0 && fd == nil {
 			fd, pairs, step = d, prs, st
 		}
@@ -505,20 +493,13 @@ func layoutWideningTable(p *core.Program, r *core.Report, rule string) {
 
 // zmPairs collects, from the for-loops of fd, the (constant destination slot, constant source offset) pairs of
 // assignments `b.min[d] = math.Min(b.min[d], flat[i+s])` and the loop's constant step.
-func zmPairs(pkg *packages.Package, fd *ast.FuncDecl) (map[[2]int64]int, int64) {
+func zmPairs(p *core.Program, pkg *packages.Package, fd *ast.FuncDecl) (map[[2]int64]int, int64) {
 	pairs := map[[2]int64]int{}
 	step := int64(-1)
-	ast.Inspect(fd.Body, func(n ast.Node) bool {
-		fs, ok := n.(*ast.ForStmt)
-		if !ok {
-			return true
-		}
-		st := int64(-1)
-		if as, ok := fs.Post.(*ast.AssignStmt); ok && as.Tok == token.ADD_ASSIGN {
-			st, _ = eng.ConstInt64(eng.ConstOf(pkg.TypesInfo, as.Rhs[0]))
-		}
+	// scan: the assignments below n; reports whether a pair was found
+	scan := func(n ast.Node) bool {
 		found := false
-		ast.Inspect(fs.Body, func(m ast.Node) bool {
+		ast.Inspect(n, func(m ast.Node) bool {
 			x, ok := m.(*ast.AssignStmt)
 			if !ok || len(x.Lhs) != 1 || len(x.Rhs) != 1 {
 				return true
@@ -542,12 +523,62 @@ func zmPairs(pkg *packages.Package, fd *ast.FuncDecl) (map[[2]int64]int, int64) 
 						pairs[[2]int64{d, s}]++
 						found = true
 					}
+				} else if _, isId := ie.Index.(*ast.Ident); isId {
+					pairs[[2]int64{d, 0}]++
+					found = true
 				}
 			}
 			return true
 		})
-		if found {
-			step = st
+		return found
+	}
+	ast.Inspect(fd.Body, func(n ast.Node) bool {
+		switch x := n.(type) {
+		case *ast.ForStmt:
+			st := int64(-1)
+			if as, ok := x.Post.(*ast.AssignStmt); ok && as.Tok == token.ADD_ASSIGN {
+				st, _ = eng.ConstInt64(eng.ConstOf(pkg.TypesInfo, as.Rhs[0]))
+			}
+			if scan(x.Body) {
+				step = st
+			}
+			return false
+		case *ast.CallExpr:
+			// the loop lives in an iterator helper that takes the body as a function literal: the step is the
+			// constant handed to the helper parameter that its loop variable is advanced by
+			var lit *ast.FuncLit
+			for _, a := range x.Args {
+				if fl, ok := a.(*ast.FuncLit); ok {
+					lit = fl
+				}
+			}
+			if lit == nil {
+				return true
+			}
+			callee, _ := typeutil.Callee(pkg.TypesInfo, x).(*types.Func)
+			var helper *ssa.Function
+			if callee != nil {
+				helper = p.SSA.FuncValue(callee)
+			}
+			if helper == nil || !scan(lit.Body) {
+				return false
+			}
+			for i, a := range x.Args {
+				k, isK := eng.ConstInt64(eng.ConstOf(pkg.TypesInfo, a))
+				if !isK || i >= len(helper.Params) {
+					continue
+				}
+				for _, b := range helper.Blocks {
+					for _, in := range b.Instrs {
+						if bo, ok := in.(*ssa.BinOp); ok && bo.Op == token.ADD && bo.Y == ssa.Value(helper.Params[i]) {
+							if _, isPhi := bo.X.(*ssa.Phi); isPhi {
+								step = k
+							}
+						}
+					}
+				}
+			}
+			return false
 		}
 		return true
 	})
